@@ -64,8 +64,11 @@ theorem N2_DSIG_DDF__DSIG_DF (hc : c * c = 2) (h2 : (2:K) ≠ 0)
     (D : Nat → Nat → K) (g0 g1 g2 g3 g4 d0 d1 d2 d3 d4 : K) (l0 l1 l2 l3 l4 : K) (s : Nat → K)  :
     upper (lamSig ((plane d0 d1 d2 d3 d4) * (plane g0 g1 g2 g3 g4)) (M3.ofMandel c [s 0, s 1, s 2, s 3]) (plane l0 l1 l2 l3 l4) (M3.ofMandel c (act (Gen.N2_DSIG_DDF__DSIG_DF_r c c3 fn D (tensv (plane g0 g1 g2 g3 g4)) (tensv ((plane d0 d1 d2 d3 d4) * (plane g0 g1 g2 g3 g4))) s) (M3.tens2 ((plane l0 l1 l2 l3 l4) * (plane d0 d1 d2 d3 d4))))))
       = upper (lamSig ((plane d0 d1 d2 d3 d4) * (plane g0 g1 g2 g3 g4)) (M3.ofMandel c [s 0, s 1, s 2, s 3]) (plane l0 l1 l2 l3 l4) (M3.ofMandel c (act (rowsOf D i4 i5) (M3.tens2 ((plane l0 l1 l2 l3 l4) * ((plane d0 d1 d2 d3 d4) * (plane g0 g1 g2 g3 g4))))))) := by
-  have hc0 : c ≠ 0 := c_ne_zero hc h2
-  c23_rat0 hc
+  have key : (act (Gen.N2_DSIG_DDF__DSIG_DF_r c c3 fn D (tensv (plane g0 g1 g2 g3 g4)) (tensv ((plane d0 d1 d2 d3 d4) * (plane g0 g1 g2 g3 g4))) s) (M3.tens2 ((plane l0 l1 l2 l3 l4) * (plane d0 d1 d2 d3 d4))))
+      = (act (rowsOf D i4 i5) (M3.tens2 ((plane l0 l1 l2 l3 l4) * ((plane d0 d1 d2 d3 d4) * (plane g0 g1 g2 g3 g4))))) := by
+    have hc0 : c ≠ 0 := c_ne_zero hc h2
+    c23_rat0 hc
+  rw [key]
 
 /-- `ABAQUS ← SPATIAL_MODULI` (2D): along every variation `δF = L F` the converted operator, applied to the
 rate of its kinematic variable, gives the rate of the Jaumann rate of the Kirchhoff stress / J that reproduces the same Lie derivative of
@@ -96,7 +99,10 @@ theorem N2_DS_DC__DS_DEGL (hc : c * c = 2) (h2 : (2:K) ≠ 0)
     (D : Nat → Nat → K) (F0 : M3 K) (f0 f1 f2 f3 f4 : K) (l0 l1 l2 l3 l4 : K) (s : Nat → K)  :
     upper (lamS (plane f0 f1 f2 f3 f4) (M3.ofMandel c [s 0, s 1, s 2, s 3]) (plane l0 l1 l2 l3 l4) (M3.ofMandel c (act (Gen.N2_DS_DC__DS_DEGL_r c c3 fn D (tensv F0) (tensv (plane f0 f1 f2 f3 f4)) s) (M3.mandel2 c (dC (plane f0 f1 f2 f3 f4) (plane l0 l1 l2 l3 l4))))))
       = upper (lamS (plane f0 f1 f2 f3 f4) (M3.ofMandel c [s 0, s 1, s 2, s 3]) (plane l0 l1 l2 l3 l4) (M3.ofMandel c (act (rowsOf D i4 i4) (M3.mandel2 c (dE (plane f0 f1 f2 f3 f4) (plane l0 l1 l2 l3 l4)))))) := by
-  have hc0 : c ≠ 0 := c_ne_zero hc h2
-  c23_rat0 hc
+  have key : (act (Gen.N2_DS_DC__DS_DEGL_r c c3 fn D (tensv F0) (tensv (plane f0 f1 f2 f3 f4)) s) (M3.mandel2 c (dC (plane f0 f1 f2 f3 f4) (plane l0 l1 l2 l3 l4))))
+      = (act (rowsOf D i4 i4) (M3.mandel2 c (dE (plane f0 f1 f2 f3 f4) (plane l0 l1 l2 l3 l4)))) := by
+    have hc0 : c ≠ 0 := c_ne_zero hc h2
+    c23_rat0 hc
+  rw [key]
 
 end TfelVerif.C23.PropsN2d
